@@ -379,8 +379,8 @@ func run(c *mon.Ctx) {
 	})
 	// ---- validation, getters and comparison are functions of the packet whoever else is validating at that moment
 	c.Floor("concurrent.calls", 20000)
-	c.Stream("concurrent-callers", c.N(3, 150), func(i int, r *gen.Rand) {
-		c.Concurrent("CheckErrors / header getters / Equal", 8, 4000, r, func(q *gen.Rand) string {
+	c.Stream("concurrent-callers", c.N(8, 200), func(i int, r *gen.Rand) {
+		c.Concurrent("CheckErrors / header getters / Equal", 8, 16000, r, func(q *gen.Rand) string {
 			var p packet.Packet
 			q.Fill(p[:8])
 			if q.Bool() {
@@ -409,6 +409,46 @@ func run(c *mon.Ctx) {
 			return ""
 		})
 		c.Class("concurrent-callers")
+	})
+	// ---- one packet read by several goroutines at once: getters, validation, comparison and the copy-returning
+	// helpers only read their argument, so callers may share it without a lock (none of them writes to it)
+	c.Stream("concurrent-readers-of-one-packet", c.N(8, 200), func(i int, r *gen.Rand) {
+		var shared packet.Packet
+		r.Fill(shared[:])
+		shared[0] = 0x47
+		snap := shared
+		pid, cc := int(snap[1]&0x1f)<<8|int(snap[2]), int(snap[3]&15)
+		c.Concurrent("getters / CheckErrors / Equal / IncrementCC / ZeroCC / SetCC on one shared packet", 8, 16000, r, func(q *gen.Rand) string {
+			p := &shared
+			if p.PID() != pid || packet.Pid(p) != pid || p.ContinuityCounter() != cc || packet.ContinuityCounter(p) != uint8(cc) {
+				return fmt.Sprintf("a getter on a packet that nobody writes to reports PID %#x / counter %d, the packet holds %#x / %d", p.PID(), p.ContinuityCounter(), pid, cc)
+			}
+			var n *packet.Packet
+			want := snap
+			switch k := q.Intn(3); k {
+			case 0:
+				n = packet.IncrementCC(p)
+				want[3] = snap[3]&0xf0 | (snap[3]+1)&0x0f
+			case 1:
+				n = packet.ZeroCC(p)
+				want[3] = snap[3] & 0xf0
+			default:
+				v := uint8(q.Intn(16))
+				n = packet.SetCC(p, v)
+				want[3] = snap[3]&0xf0 | v
+			}
+			if n == nil || *n != want {
+				return "a copy-returning continuity-counter helper returned a packet that is not its argument with the new counter"
+			}
+			if !packet.Equal(p, &snap) || *p != snap {
+				return "a packet that is only read (getters, Equal, copy-returning helpers) was seen changed"
+			}
+			return ""
+		})
+		if shared != snap {
+			c.Fail("concurrent:shared-packet-modified", "after getters, Equal and the copy-returning helpers ran on one shared packet from several goroutines the packet is no longer what it was", wit{Op: "shared packet", Before: mon.Hex(snap[:]), After: mon.Hex(shared[:])})
+		}
+		c.Class("concurrent-readers-of-one-packet")
 	})
 	// ---- the copy-returning helpers over long runs of calls: results are kept, and fed back as arguments
 	// after 1, 255, 256, 257, 512 ... further calls; no call may change its argument or an earlier result
